@@ -64,7 +64,10 @@ def action():
         st.tuples(st.just("ionice"), st.sampled_from([1, 2]), st.integers(0, 7)),
         st.tuples(st.just("cpu_affinity"), cpus),
         st.tuples(st.just("cpu_affinity"), st.sampled_from([[], [], [0, 0, 1], [9999], [-1], [0, 9999],
-                                                            [0, 1], [0, 1, 2, 5, 6], [3]])),
+                                                            [0, 1], [0, 1, 2, 5, 6], [3],
+                                                            # only nonexistent CPUs, even modulo 2**32
+                                                            [2**32], [2**32 + 3], [2**31], [2**40 + 1],
+                                                            [2**32, 2**32 + 1]])),
         st.tuples(st.just("rlimit"), st.sampled_from(RLIMITS),
                   st.sampled_from([(0, 0), (1, 1), (0, 1), (1, 2), (1024, 4096), (5, INF),
                                    (INF, INF), (10, 10), "cur", (1,), (1, 2, 3), (), [7, 8]])),
